@@ -212,7 +212,7 @@ func (tcFamily) Exec(c *hc.Case) {
 
 func (tcFamily) Emit(w io.Writer, f *hc.File) {
 	fmt.Fprintln(w, "From CV Require Import Base.Prelude Seq.TimedCheck Seq.CaseCheck.")
-	fmt.Fprintf(w, "Definition t0 : Z := %d.\n", hc.T0.UnixNano())
+	fmt.Fprintf(w, "Definition t0 : Z := %s.\n", hc.ZofTime(hc.T0))
 	fmt.Fprintln(w, "Definition cases : list tc_case := [")
 	for i, c := range f.Cases {
 		var p tcParams
